@@ -24,7 +24,10 @@ CHECKS = {
               "combinations, overall per control combination). groupby/apply/reindex of _apply_functions have no deductive contract.",
               note="Trusted: pandas column selection / list / asarray copy positionally; the bounded part decides everything that runs inside pandas."),
     "C02": _c("P: ratio_sub_one = min(r,1/r) for r>0 (the r<0 clause from the property text is refuted with r=-1/2 and replayed: known finding); lemmas agg.* (difference>=0, "
-              "ratio in [0,1], between<=2*to_overall, weighted-mean sandwich) for k<=4 groups." + _B + "group_min/max/difference/ratio for both methods and errors settings on value "
+              "ratio in [0,1], between<=2*to_overall, weighted-mean sandwich) for k<=4 groups; the MetricFrame result cache: _populate_results writes into cell [kind][method][errors] the "
+              "extracted value of the DisaggregatedResult call with exactly those arguments over the control levels (or the exception that call raised, for all 2^4 + 2^8 raise/return "
+              "combinations), _group, and the readers group_min/group_max/difference/ratio/overall/by_group return or raise the cell of their own arguments, documented defaults included, "
+              "ValueError outside the documented argument sets, cache unmodified." + _B + "group_min/max/difference/ratio for both methods and errors settings on value "
               "tables incl. 0, negatives, NaN, control strata, against the formulas of the statement."),
     "C03": _c("P: each of the six named fairness metrics is verified against the callee contracts of MetricFrame/aggregates/base rates (right base metric, aggregate, caller's "
               "method and sample_weight under key sample_weight for every rate; equalized odds: max/min or mean, other agg raises); _DerivedMetric.__call__ keyword routing and "
